@@ -112,3 +112,15 @@ Theorem C14_leaf_build_step : forall cnt fuel r0 rs types, Leaf.L_base_relocs_bu
      Ok (le32 start ++ le32 (size mod W32) ++ flat_map le16 ws ++ pad ++ rest)).
 Proof. exact LeafRelocs.build_gen_step. Qed.
 Print Assumptions C14_leaf_build_step.
+
+(* the source places the binders of the generated leaf definitions stand for (third audit, F2) *)
+From Coq Require Import List String.
+Import ListNotations.
+Theorem C14_leaf_reads_relocs :
+  Leaf.L_base_relocs_Block_rva_of_args = ["self.image.VirtualAddress : u32"%string; "word : u16"%string] /\
+  Leaf.L_base_relocs_Block_type_of_args = ["word : u16"%string] /\
+  Leaf.L_base_relocs_encode_type_offset_args = ["base : u32"%string; "rva : u32"%string; "ty : u8"%string] /\
+  Leaf.L_base_relocs_build__start_args = ["rvas[0] : u32"%string] /\
+  Leaf.L_base_relocs_build__end_args = ["rvas[0] : u32"%string].
+Proof. exact LeafRelocs.leaf_reads_relocs. Qed.
+Print Assumptions C14_leaf_reads_relocs.
